@@ -133,20 +133,32 @@ Theorem C15_resume_twice :
 Proof. exact resume_twice. Qed.
 Print Assumptions C15_resume_twice.
 
-(* FULL: forall c : cls, picklable_cls c = true  — every one of the 35 classes can be pickled
-   after any history (its object graph never holds a callable that pickle cannot reach by
-   qualified name).  FALSE today (F25): see the _refuted theorem; proved for the other 34. *)
-Theorem C15_all_picklable_partial : forall c : cls, c <> C_ECDDWT -> picklable_cls c = true.
+(** Every one of the 35 classes can be pickled after any history (its object graph never
+    holds a callable that pickle cannot reach by qualified name) — in every revision of the
+    code in which BaseECDDConfig does not store the class-body lambda (the key is stored, or
+    the polynomials are module-level functions).  Which revision is in force is determined
+    on the real object graphs by harness/c15.py at every run. *)
+Theorem C15_all_picklable : forall r c, r <> StoresLambda -> picklable_cls r c = true.
+Proof. exact all_picklable. Qed.
+Print Assumptions C15_all_picklable.
+
+Theorem C15_all_graphs_picklable : forall r cs, r <> StoresLambda -> picklable_graph r cs = true.
+Proof. exact graph_picklable_fixed. Qed.
+Print Assumptions C15_all_graphs_picklable.
+
+(* FULL (for the code as found): forall c : cls, picklable_cls StoresLambda c = true.
+   FALSE (F25): see the _refuted theorem; proved for the other 34 classes. *)
+Theorem C15_all_picklable_partial : forall c : cls, c <> C_ECDDWT -> picklable_cls StoresLambda c = true.
 Proof. exact all_picklable_but_ecddwt. Qed.
 Print Assumptions C15_all_picklable_partial.
 
 (** F25: ECDDWT's config stores [average_run_length_map[arl]], a lambda written in the body
     of class BaseECDDConfig (qualified name BaseECDDConfig.<lambda>, not an attribute of the
     class): pickle raises PicklingError for every protocol.  Witness replayed on the code by
-    harness/c15.py (clause "picklable"). *)
+    harness/c15.py (clause "picklable") whenever the code is in that revision. *)
 Theorem C15_all_picklable_refuted :
-  exists c, In c all_classes /\ cls_kind c = KDetector /\ picklable_cls c = false /\
-            In ("._config.control_limit_func"%string, ClassBodyLambda) (callable_fields c).
+  exists c, In c all_classes /\ cls_kind c = KDetector /\ picklable_cls StoresLambda c = false /\
+            In ("._config.control_limit_func"%string, ClassBodyLambda) (callable_fields StoresLambda c).
 Proof. exact ecddwt_not_picklable. Qed.
 Print Assumptions C15_all_picklable_refuted.
 
@@ -154,7 +166,8 @@ Print Assumptions C15_all_picklable_refuted.
     to it) is unpicklable, every graph without one is picklable; and an unpicklable graph
     makes save raise PicklingError AFTER the target was opened for writing. *)
 Theorem C15_graph_picklable_iff_no_ecddwt : forall cs : list cls,
-  (In C_ECDDWT cs -> picklable_graph cs = false) /\ (~ In C_ECDDWT cs -> picklable_graph cs = true).
+  (In C_ECDDWT cs -> picklable_graph StoresLambda cs = false) /\
+  (~ In C_ECDDWT cs -> picklable_graph StoresLambda cs = true).
 Proof. intros cs. split; [apply graph_with_ecddwt | apply graph_without_ecddwt]. Qed.
 Print Assumptions C15_graph_picklable_iff_no_ecddwt.
 
